@@ -179,10 +179,12 @@ pub fn generate(tier: &str, rng: &mut Rng) -> (Vec<String>, bool) {
             }
         }
     }
-    // Polars cells (thorough tier; the harness is then built with `--features polars`)
-    if thorough {
+    // Polars cells (the harness is always built with `--features polars`): lengths up to 3 in the quick
+    // tier, up to 5 in the thorough tier
+    {
+        let plmax = if thorough { 5 } else { 3 };
         for k in 1..=3 {
-            for len in 0..=5 {
+            for len in 0..=plmax {
                 for s in all_series(&["_", "1", "2"], len) {
                     out.push(format!("acc b=pl{} xs={}", k, join(&s)));
                 }
@@ -190,7 +192,7 @@ pub fn generate(tier: &str, rng: &mut Rng) -> (Vec<String>, bool) {
         }
         let mut k = 0usize;
         for f in ROLL.iter().filter(|f| f.nullable && f.arity == 1 && f.family != "fdiff") {
-            for len in 0..=5 {
+            for len in 0..=plmax {
                 for s in all_series(&["_", "1", "3"], len) {
                     let xs: Vec<String> = s.iter().enumerate().map(|(i, v)| if v == "_" { v.clone() } else { format!("{}", v.parse::<i64>().unwrap() + (i as i64 % 3)) }).collect();
                     for w in [1, 2, 3, len + 1] {
@@ -220,5 +222,5 @@ pub fn known_finding(r: &Req, imp: &str, _spec: &str) -> Option<String> {
 }
 
 pub fn rule(tier: &str) -> String {
-    format!("(a) accessor table (len, checked get at 0..=len, iteration both directions, size hint, every sub-slice a<=b<=len, contiguous view when offered) of 17 input backends (the option view of a Vec and of an ndarray, Vec, slice, [T;N], Arc<Vec>, VecDeque head offsets 0/1/3, Arc<VecDeque>, Array1, ArrayViewMut1, ArrayView1 step 1,2,3,-1,-2) against the logical sequence, exhaustive over {{null,1,2}}^len, len <= {}; (b) every catalogued function ({}) on every sized backend (round-robin) and every output container x {{returned, caller buffer}} (incl. a strided ndarray view as caller buffer, checked for writes outside its slots): full values against the single model result. Polars cells (ChunkedArray with 1..3 chunks and validity as input backend, and as output container of the returned path) are part of the thorough tier only (harness built with --features polars). non-trivial = len >= 2 with a non-null output.", if tier == "thorough" { 6 } else { 4 }, ROLL.len())
+    format!("(a) accessor table (len, checked get at 0..=len, iteration both directions, size hint, every sub-slice a<=b<=len, contiguous view when offered) of 17 input backends (the option view of a Vec and of an ndarray, Vec, slice, [T;N], Arc<Vec>, VecDeque head offsets 0/1/3, Arc<VecDeque>, Array1, ArrayViewMut1, ArrayView1 step 1,2,3,-1,-2) against the logical sequence, exhaustive over {{null,1,2}}^len, len <= {}; (b) every catalogued function ({}) on every sized backend (round-robin) and every output container x {{returned, caller buffer}} (incl. a strided ndarray view as caller buffer, checked for writes outside its slots): full values against the single model result. Polars cells (ChunkedArray with 1..3 chunks and validity as input backend, and as output container of the returned path): series up to length 3 in the quick tier, 5 in the thorough tier. non-trivial = len >= 2 with a non-null output.", if tier == "thorough" { 6 } else { 4 }, ROLL.len())
 }
